@@ -394,9 +394,19 @@ def sentinel_discipline(prog, f, maybe_params=(), extra_arrays=()):
     for n in ast.walk(f.node):
         if isinstance(n, ast.Subscript):
             for e in index_elts(n):
+                epm = astutil.parents(e)
                 for sub in ast.walk(e):
                     m = is_maybe(sub)
                     if m is None:
+                        continue
+                    # inside a comparison the value selects (a boolean mask `x[v == p]`), it does not address
+                    anc, in_cmp = sub, False
+                    while anc in epm:
+                        anc = epm[anc]
+                        if isinstance(anc, ast.Compare):
+                            in_cmp = True
+                            break
+                    if in_cmp:
                         continue
                     if isinstance(sub, ast.Subscript) and any(is_maybe(x) for x in ast.walk(sub.value) if x is not sub):
                         pass
@@ -489,3 +499,95 @@ def sibling_agreement(prog, cls, f):
                 else:
                     out.append(F('ok', f, n, f'direct call of {n.func.attr} passes the same arguments as the dispatched call'))
     return out, sites
+
+
+# ------------------------------------------------------------------------------------------------ shared ordering / pass-through rules
+def count_after_last_call(f, count_attr):
+    """[(kind, node, text)] for the function that increments self.<count_attr>: every call that can refuse the batch (any call
+    other than logging / isinstance / len) comes *before* the increment, so that a batch refused by a kernel or by numpy (an
+    implicit exception) is not counted."""
+    out = []
+    stmts = astutil.stmts_of(f.node)
+    incs = [st for st in stmts if isinstance(st, ast.AugAssign) and isinstance(st.target, ast.Attribute) and norm(st.target) == f'self.{count_attr}']
+    if len(incs) != 1:
+        return [('und', f.node, f'{len(incs)} increments of self.{count_attr}')]
+    inc = incs[0]
+    harmless = ('info', 'debug', 'warning', 'isinstance', 'len', 'format', 'type', 'str', 'repr', 'dtype')
+    # statements that can execute after the increment: the rest of its block and of every enclosing block (for a try: the else /
+    # finally clauses after the body, the finally clause after a handler or the else clause - never a sibling handler, which runs
+    # only when the body raised, i.e. before an increment placed in the else clause)
+    pm = astutil.parents(f.node)
+    after = []
+    cur = inc
+    while cur in pm:
+        par = pm[cur]
+        for field in ('body', 'orelse', 'finalbody'):
+            blk = getattr(par, field, None)
+            if isinstance(blk, list) and any(x is cur for x in blk):
+                i = next(k for k, x in enumerate(blk) if x is cur)
+                rolled_back = isinstance(par, ast.Try) and field == 'body' and any(
+                    (h.type is None or norm(h.type).split('.')[-1] in ('BaseException', 'Exception')) and h.body and isinstance(h.body[-1], ast.Raise) and h.body[-1].exc is None
+                    and any(isinstance(c, ast.Call) and '__dict__' in norm(c.func) for st_ in h.body for c in ast.walk(st_)) for h in par.handlers)
+                if rolled_back:
+                    # the rest of this try body runs under a handler that restores the instance dictionary and re-raises: a refusal
+                    # there undoes the (rebinding) increment
+                    after.extend(par.orelse)
+                    after.extend(par.finalbody)
+                    continue
+                after.extend(blk[i + 1:])
+                if isinstance(par, ast.Try):
+                    if field == 'body':
+                        after.extend(par.orelse)
+                        after.extend(par.finalbody)
+                        if any(isinstance(c, ast.Call) and norm(c.func).split('.')[-1] not in harmless for st_ in blk[i + 1:] for c in ast.walk(st_)):
+                            for h in par.handlers:
+                                after.extend(h.body)
+                    elif field == 'orelse':
+                        after.extend(par.finalbody)
+        if isinstance(par, ast.ExceptHandler) and par in pm and isinstance(pm[par], ast.Try):
+            after.extend(pm[par].finalbody)
+        if isinstance(par, (ast.FunctionDef, ast.AsyncFunctionDef)):
+            break
+        cur = par
+    late = [c for st in after for c in ast.walk(st) if isinstance(c, ast.Call) and norm(c.func).split('.')[-1] not in harmless]
+    if late:
+        out.append(('bad', late[0], f'`{norm(late[0])[:60]}` runs after `{norm(inc)}`: when it refuses the batch (an exception raised inside the kernel / numpy) the traces are already '
+                                   f'counted, and every later mean is taken over a count that includes traces that were never accumulated'))
+    else:
+        out.append(('ok', inc, f'`{norm(inc)}` is the last effect of {f.qualname}: a batch refused by any earlier call is not counted'))
+    return out
+
+
+def batch_passthrough(prog, caller, kernel, batch_param, precision_texts=('self.precision',)):
+    """how the batch parameter reaches argument 0 of the kernel call in `caller`: unchanged, or through a cast to the working
+    precision / float64; -> (verdict 'ok'|'bad'|'unknown', text, node)"""
+    from . import normalize
+    cn = normalize.normal(prog, caller, skip={kernel.name})
+    calls = [c for c in ast.walk(cn.node) if isinstance(c, ast.Call) and isinstance(c.func, ast.Attribute) and c.func.attr == kernel.name]
+    if len(calls) != 1:
+        return 'unknown', f'{len(calls)} kernel calls', caller.node
+    amap = kernels.call_arg_map(kernel, calls[0])
+    a = amap.get(kernel.params[0])
+    name = a.id if isinstance(a, ast.Name) else batch_param
+    rebinds = [s_ for s_ in ast.walk(cn.node) if isinstance(s_, ast.Assign) and len(s_.targets) == 1 and isinstance(s_.targets[0], ast.Name) and s_.targets[0].id == name]
+    for e in [a] + [s_.value for s_ in rebinds]:
+        if isinstance(e, ast.Name):
+            continue
+        if isinstance(e, ast.Call):
+            nm = norm(e.func).split('.')[-1]
+            dt = next((kw_.value for kw_ in e.keywords if kw_.arg == 'dtype'), None)
+            if nm == 'astype' and e.args:
+                dt = e.args[0]
+            elif nm in ('asarray', 'ascontiguousarray', 'array', 'require') and dt is None and len(e.args) > 1:
+                dt = e.args[1]
+            if nm in ('astype', 'asarray', 'ascontiguousarray', 'array', 'require', 'copy'):
+                if dt is None:
+                    continue
+                txt = norm(dt).strip('\'"')
+                if txt in precision_texts or txt.split('.')[-1] in ('float64', 'double', 'longdouble') or any(txt == f'_np.dtype({p_})' or txt == f'np.dtype({p_})' for p_ in precision_texts):
+                    continue
+                return 'bad', f'`{norm(e)[:70]}` converts the batch to `{txt}` before the kernel sees it', calls[0]
+        if isinstance(e, ast.Subscript) and isinstance(e.slice, ast.Slice) and e.slice.lower is None and e.slice.upper is None and e.slice.step is None:
+            continue
+        return 'unknown', f'`{norm(e)[:70]}`', calls[0]
+    return 'ok', 'the kernel receives the batch as given (or cast to the working precision)', calls[0]
